@@ -85,6 +85,9 @@ pub uninterp spec fn cfg_fmt_leading_zero_threshold() -> usize;
 pub uninterp spec fn cfg_fmt_trailing_zero_threshold() -> usize;
 pub uninterp spec fn cfg_fmt_max_integer_padding() -> usize;
 
+/// result (unscaled magnitude, scale) of the Newton reciprocal on a magnitude: NOT specified (accuracy undecided)
+pub uninterp spec fn inv_mag_spec(n: int, s: int, p: u64, m: RoundingMode) -> (int, int);
+
 // derive(Clone) on the crate's structs (derives are dropped by R7; these bodies are what derive expands to)
 impl Clone for BigDecimal {
     fn clone(&self) -> (ret: BigDecimal) ensures ret.i() == self.i(), ret.s() == self.s() {
@@ -270,4 +273,21 @@ pub proof fn lemma_with_prec_round(i: int, k: int)
             assert(2 * r < p);
         }
     }
+}
+
+// ------------------------------------------------------------------ primitive divisors
+/// decimal / primitive integer d: +-1 and +-2 are exact (unchanged / negated / exact half), anything else is
+/// the decimal division by the converted integer
+pub open spec fn prim_quot_cases(ai: int, a_s: int, d: int, maxp: int, ri: int, rs: int) -> bool {
+    if d == 1 { ri == ai && rs == a_s }
+    else if d == -1 { ri == -ai && rs == a_s }
+    else if d == 2 { is_sum(ai, a_s, ri, rs, ri, rs) }
+    else if d == -2 { is_sum(-ai, a_s, ri, rs, ri, rs) }
+    else { quot_cases(ai, a_s, d, 0, maxp, ri, rs) }
+}
+/// result of x.inverse() at the configured default context (see contracts/58_inverse.ctr)
+pub open spec fn inverse_post(i: int, s: int, ri: int, rs: int) -> bool {
+    if i == 0 || same_val(i, s, 1, 0) { ri == i && rs == s }
+    else { rs == inv_mag_spec(iabs(i), s, cfg_default_precision(), cfg_default_rounding_mode()).1
+           && ri == isgn(i) * inv_mag_spec(iabs(i), s, cfg_default_precision(), cfg_default_rounding_mode()).0 }
 }
